@@ -515,7 +515,8 @@ func RunUnit(t *testing.T, unit, workerTest string, rows []*Row) {
 
 // SelfTest runs the supervisor on rows with planted failures and returns what it attributed.
 func SelfTest(t *testing.T, unit, workerTest string, rows []*Row, watchdog time.Duration) *Recorder {
-	m := &Recorder{Viol: map[string]string{}, Counters: map[string]int{}}
+	// the workers take the tier from the environment; the recorder must agree (same job list)
+	m := &Recorder{Viol: map[string]string{}, Counters: map[string]int{}, IsThorough: os.Getenv("VERIF_TIER") == "thorough"}
 	supervise(t, m, unit, workerTest, rows, watchdog)
 	return m
 }
